@@ -171,7 +171,7 @@ class Run:
                 self.tracked = [(l, m, s) for (l, m, s) in self.tracked if m is not mv]
                 return
 
-    def exec_op(self, op, label):
+    def exec_op(self, op, label, keep=None):
         """Build operands, snapshot them, apply the operation.  Returns (outcome, exception)."""
         world = self.world
 
@@ -184,6 +184,8 @@ class Run:
             self.track(f'operand of {label}', args)
             res = ops.apply_op(world, op, args)
             self.track(f'result of {label}', res)      # returned multivectors must never change afterwards
+            if keep is not None and type(res).__name__ == 'MultiVector':
+                world.prev_results[keep] = res
             return res
         out, exc = ops.outcome_of(go)
         return out, exc
@@ -214,9 +216,10 @@ class Run:
         def body(t):
             sim = self.sim
             for i, op in enumerate(prog):
+                self.world._tls.caller = c
                 sim.begin_op(t, i, faults_by_op.get(i))
                 self._argkeys = None
-                out, exc = self.exec_op(op, f'caller {c} op {i}')
+                out, exc = self.exec_op(op, f'caller {c} op {i}', keep=(c, i))
                 argkeys = self._argkeys
                 f = sim.end_op(t)
                 if isinstance(exc, SimAbort):
@@ -286,6 +289,7 @@ class Run:
             for s in self.stubs.values():
                 s.armed = False
             for c, prog in enumerate(tr['callers']):
+                self.world._tls.caller = c
                 for i, op in enumerate(prog):
                     out, exc = self.exec_op(op, f'warm caller {c} op {i}')
                     self.judge(c, i, op, out, False, 'warm')
